@@ -1,6 +1,6 @@
 (* C01: proofs about rp.VerifyIDToken / rp.VerifyTokens as modelled in
    C01_Verifier.  Statements are re-exported by coq/props/C01.v. *)
-From OIDC Require Import Lib Base64 C02_Jws C01_Verifier C02_Ground C02_proofs C01_spec.
+From OIDC Require Import Lib Base64 C02_Jws C01_Verifier C02_Ground C02_proofs C01_Options C01_spec C01_options_proofs.
 
 (* ---------- the conditions of OIDC Core 3.1.3.7 as the verifier decides them ---------- *)
 Definition nonce_ok (v : verifier) (c : claims) : Prop :=
@@ -350,6 +350,7 @@ Definition wf (i : input) : Prop :=
   match i with
   | IIDToken v _ _ _ _ now0 now1 => wf_step v now0 now1
   | IIDTokenSeq v _ steps => Forall (fun s => wf_step v (is_now0 s) (is_now1 s)) steps
+  | IOptions issuer client opts _ _ _ _ _ _ now0 now1 => wf_step (configured issuer client opts) now0 now1
   end.
 
 Lemma nonce_bool : forall v c, nonce_ok v c ->
@@ -515,18 +516,52 @@ Proof.
       pose proof (Hrej bytes c eq_refl B) as A2. congruence.
 Qed.
 
+(* claims come back only as the parsed payload, tagged with the token's algorithm *)
+Lemma model_step_accept : forall v ks t m atk now c alg,
+  model_step v ks t m atk now = Accept c alg -> exists bytes, m = MidOk bytes c /\ alg = sig_alg t.
+Proof.
+  intros v ks t m atk now c alg A.
+  assert (A' : verify_id_token sym_verify v ks t m now = Accept c alg).
+  { destruct atk as [a|]; cbn [model_step] in A; [|assumption]. now apply tokens_sound in A as [A _]. }
+  apply verify_id_token_accept in A' as [bytes [Hm [Hs _]]].
+  apply check_signature_genuine in Hs as [_ Ha]. exists bytes. now split.
+Qed.
+
+Lemma model_step_no_expired_accept : forall v ks t m atk now c alg e,
+  model_step v ks t m atk now <> AcceptExpired c alg e.
+Proof.
+  intros v ks t m atk now c alg e A. destruct atk as [a|]; cbn [model_step] in A.
+  - unfold verify_tokens in A.
+    destruct (verify_id_token sym_verify v ks t m now) as [c0 a0|c0 a0 e0|e0] eqn:V; try discriminate.
+    + destruct (chk_at_hash (H_case a) (at_value a) (c_at_hash c0) a0); discriminate.
+    + now apply verify_id_token_no_expired_accept in V.
+  - now apply verify_id_token_no_expired_accept in A.
+Qed.
+
 Theorem spec_model : forall i, wf i -> spec i (model i) = true.
 Proof.
-  intros [v ks t m atk now0 now1|v ks steps] W; cbn [model spec].
+  intros [v ks t m atk now0 now1|v ks steps|issuer client opts probes p ks t m atk now0 now1] W; cbn [model spec].
   - now apply step_model.
   - cbn [wf] in W. induction W as [|s r Hs Hr IH]; cbn [map spec_seq]; [reflexivity|].
     now rewrite (step_model _ _ _ _ _ _ _ Hs), IH.
+  - cbn [wf] in W. rewrite options_configured. cbv zeta.
+    rewrite cfg_reported_observe, (step_model _ _ _ _ _ _ _ W). cbn [andb].
+    destruct (model_step (configured issuer client opts) ks t m atk now0) as [c alg|c alg e|e] eqn:A.
+    + apply model_step_accept in A as [bytes [Hm Ha]]. subst m alg. apply getters_report_getters.
+    + exfalso. now apply model_step_no_expired_accept in A.
+    + now destruct m.
 Qed.
 
 
 Example wf_nonvacuous :
   wf (IIDToken (mkVerifier "i" "c" 1000000000 0 0 None None []) (KSOpenID None) TMalformed MidSegments None
                1700000000000000000 1700000000000000100).
+Proof. cbn. unfold wf_step, zero_unix, ns. cbn. lia. Qed.
+
+Example wf_options_nonvacuous :
+  wf (IOptions "i" "c" [WithIssuedAtOffset 0; WithAuthTimeMaxAge 5; WithIssuedAtOffset 2000000000] ["gold"]
+               (mkProfile "" "" "" "" "" false "" false None 0 0%N)
+               (KSOpenID None) TMalformed MidSegments None 1700000000000000000 1700000000000000100).
 Proof. cbn. unfold wf_step, zero_unix, ns. cbn. lia. Qed.
 
 (* non-vacuity of C01_complete / C01_sound: a concrete accepted token *)
